@@ -123,6 +123,14 @@ def build_input(ctx, A0s, D, shape, name='A', sym=False, cplx=False):
     return X
 
 
+def dirty(ctx, algopy, name, shape):
+    """a result buffer that already holds arbitrary values (a reused workspace passed as out=)"""
+    W = np.empty(shape, dtype=object)
+    for idx in np.ndindex(*shape):
+        W[idx] = ctx.var('%s%s' % (name, list(idx)))
+    return mk_utpm(ctx, algopy, W)
+
+
 def coefs(Y, p):
     return [Y[d, p] for d in range(Y.shape[0])]
 
@@ -164,12 +172,16 @@ def h_qr(ctx, M, N, D, P, full=False, sigma=1):
         A0s.append(A0)
     X = build_input(ctx, A0s, D, (M, N))
     A = mk_utpm(ctx, algopy, X)
-    if full:
+    KQ = M if full else K
+    if ctx.opts.get('dirty_out'):
+        # reused workspace: the result must not depend on what the buffers held before
+        outb = (dirty(ctx, algopy, 'wq', (D, P, M, KQ)), dirty(ctx, algopy, 'wr', (D, P, KQ, N)))
+        Q, R = (algopy.UTPM.qr_full if full else algopy.UTPM.qr)(A, out=outb)
+        ctx.fact(Q is outb[0] and R is outb[1], 'the out= buffers are returned')
+    elif full:
         Q, R = algopy.qr_full(A)
-        KQ = M
     else:
         Q, R = algopy.qr(A)
-        KQ = K
     Qd, Rd = plain(Q.data), plain(R.data)
     ctx.fact(Qd.shape == (D, P, M, KQ) and Rd.shape == (D, P, KQ, N), 'factor shapes %s %s' % (Qd.shape, Rd.shape))
     for p in range(P):
@@ -205,7 +217,12 @@ def h_cholesky(ctx, n, D, P):
         A0s.append(A0)
     X = build_input(ctx, A0s, D, (n, n), sym=True)
     A = mk_utpm(ctx, algopy, X)
-    L = algopy.cholesky(A)
+    if ctx.opts.get('dirty_out'):
+        outb = dirty(ctx, algopy, 'wl', (D, P, n, n))
+        L = algopy.UTPM.cholesky(A, out=outb)
+        ctx.fact(L is outb, 'the out= buffer is returned')
+    else:
+        L = algopy.cholesky(A)
     Ld = plain(L.data)
     for p in range(P):
         Lc, Ac = coefs(Ld, p), coefs(X, p)
@@ -291,7 +308,12 @@ def h_eigh(ctx, n, D, P, sigma=1, epsilon=None):
         lams.append(lam)
     X = build_input(ctx, A0s, D, (n, n), sym=True)
     A = mk_utpm(ctx, algopy, X)
-    l, Q = algopy.eigh(A) if epsilon is None else algopy.eigh(A, epsilon=float(Fraction(epsilon)))
+    if ctx.opts.get('dirty_out'):
+        outb = (dirty(ctx, algopy, 'wl', (D, P, n)), dirty(ctx, algopy, 'wq', (D, P, n, n)))
+        l, Q = algopy.UTPM.eigh(A, out=outb)
+        ctx.fact(l is outb[0] and Q is outb[1], 'the out= buffers are returned')
+    else:
+        l, Q = algopy.eigh(A) if epsilon is None else algopy.eigh(A, epsilon=float(Fraction(epsilon)))
     ld, Qd = plain(l.data), plain(Q.data)
     ctx.fact(ld.shape == (D, P, n) and Qd.shape == (D, P, n, n), 'shapes')
     for p in range(P):
@@ -438,6 +460,7 @@ def h_svd(ctx, D, P):
             ctx.holds(S.lift(sd[0, p, 1]) > 0, 's_0 positive dir %d' % p)
         else:
             ctx.fact(sd[0, p, 0] > sd[0, p, 1] > 0, 's_0 descending positive')
+    ctx.eq(plain(A.data), X, 'input unchanged')
 
 
 def h_eig(ctx, n, D, P, cplx1=False):
@@ -482,6 +505,7 @@ def h_eig(ctx, n, D, P, cplx1=False):
         QL = ps_matmul(Qc, Lc, D)
         for d in range(D):
             ctx.eq(AQ[d], QL[d], 'AQ==Q diag(lam) order %d dir %d' % (d, p))
+    ctx.eq(plain(A.data), X, 'input unchanged')
 
 
 def units(tier, seed):
@@ -524,6 +548,24 @@ def units(tier, seed):
     add('svd/2x2/D2,P1', 'h_svd', o={'crosscheck': False}, D=2, P=1)
     if tier != 'quick':
         add('svd/2x2/D2,P2', 'h_svd', o={'unit_timeout': 1500, 'crosscheck': False, 'path_budget': 600}, D=2, P=2)
+    # Fortran-ordered coefficient matrices (and single-column operands): the layout that LAPACK
+    # wrappers with overwrite_a=True destroy; `input unchanged` is part of every harness
+    W = {'dirty_out': True}
+    add('qr/2x2/out= reused workspace/D3,P1', 'h_qr', o=W, M=2, N=2, D=3, P=1)
+    add('qr/3x2/out= reused workspace/D2,P2', 'h_qr', o=W, M=3, N=2, D=2, P=2)
+    add('qr/2x3/out= reused workspace/D2,P1', 'h_qr', o=W, M=2, N=3, D=2, P=1)
+    add('qr_full/3x2/out= reused workspace/D2,P1', 'h_qr', o=W, M=3, N=2, D=2, P=1, full=True)
+    add('cholesky/2x2/out= reused workspace/D3,P2', 'h_cholesky', o=W, n=2, D=3, P=2)
+    add('eigh/2x2/out= reused workspace/D3,P1', 'h_eigh', o=W, n=2, D=3, P=1)
+    F = {'layout': 'F'}
+    add('qr/2x2/Fortran order/D2,P1', 'h_qr', o=F, M=2, N=2, D=2, P=1)
+    add('qr/3x2/Fortran order/D2,P1', 'h_qr', o=F, M=3, N=2, D=2, P=1)
+    add('qr_full/3x2/Fortran order/D2,P1', 'h_qr', o=F, M=3, N=2, D=2, P=1, full=True)
+    add('qr_full/2x2/Fortran order/D2,P2', 'h_qr', o=F, M=2, N=2, D=2, P=2, full=True)
+    add('cholesky/2x2/Fortran order/D2,P1', 'h_cholesky', o=F, n=2, D=2, P=1)
+    add('eigh/2x2/Fortran order/D2,P1', 'h_eigh', o=F, n=2, D=2, P=1)
+    for variant in ('lu', 'lu2', 'lu_factor'):
+        add('%s/2x2/Fortran order/D2,P1' % variant, 'h_lu', o=F, n=2, D=2, P=1, variant=variant)
     add('eig/2x2/D2,P1', 'h_eig', o={'validate_values': False}, n=2, D=2, P=1)
     add('eig/2x2/D2,P2', 'h_eig', o={'validate_values': False}, n=2, D=2, P=2)
     add('eig/2x2 real A0, complex A1/D2,P1', 'h_eig', o={'validate_values': False}, n=2, D=2, P=1, cplx1=True)
